@@ -41,9 +41,21 @@ func FmtDiffs(input string) ([]FmtDiff, error) {
 		lines: strings.Split(input, "\n"),
 	}
 
-	out := make([]FmtDiff, 0, len(all))
+	// Fragments which share a source line (`} foo = 1`, `/* c */ foo = 1`) are
+	// replaced together, editors reject overlapping edits.
+	merged := make([]FmtDiff, 0, len(all))
+	for _, diff := range all {
+		if last := len(merged) - 1; last >= 0 && diff.FromLine < merged[last].ToLine {
+			merged[last].NewText += diff.NewText
+			merged[last].ToLine = max(merged[last].ToLine, diff.ToLine)
+			continue
+		}
+		merged = append(merged, diff)
+	}
+
+	out := make([]FmtDiff, 0, len(merged))
 	lastEnd := -1
-	for idx, diff := range all {
+	for idx, diff := range merged {
 		if idx == 0 {
 			// Remove any leading empty lines
 			if diff.FromLine > 0 {
